@@ -759,6 +759,81 @@ def _is_user_like_arg(e: ast.AST) -> bool:
 REWRITERS = {"nan_to_num", "clip", "where", "maximum", "minimum", "fmax", "fmin", "abs", "absolute", "round", "around", "rint", "floor", "ceil", "sign", "nanmax", "nanmin", "sort", "cumsum"}
 
 
+def rule_m(ctx: Context, R: Reporter):
+    """C07.m  numpy contracts where the per-particle blob table is assembled from the raw results of the user's function:
+      * rows handed to `np.array(rows, dtype=<configured dtype>)` must not be *lists by construction* (a starred
+        assignment target `value, *extra = row`, `list(...)`, a list display): for a structured dtype numpy reads a
+        tuple as one record but broadcasts every scalar of a list over all fields;
+      * a table built from *columns* (`zip(*results)`) is turned into rows by a transpose, not by
+        `.reshape(n_rows, -1)`, which re-cuts the flat buffer and scatters each particle's values over other particles."""
+    n = 0
+    for fi in ctx.prog.functions.values():
+        if not any(_is_user_like(c) for c in calls_in(fi.node)):
+            continue
+        n += 1
+        flow = flow_of(fi.node)
+        starred = set()
+        columns = set()
+        for x in walk_no_nested(fi.node):
+            tgs = []
+            if isinstance(x, ast.Assign):
+                tgs = x.targets
+                src = x.value
+            elif isinstance(x, (ast.For, ast.comprehension)):
+                tgs = [x.target]
+                src = x.iter
+            else:
+                continue
+            from_zip_star = isinstance(src, ast.Call) and dotted(src.func) == "zip" and any(isinstance(a, ast.Starred) for a in src.args)
+            for t in tgs:
+                for y in ast.walk(t):
+                    if isinstance(y, ast.Starred) and isinstance(y.value, ast.Name):
+                        starred.add(y.value.id)
+                        if from_zip_star:
+                            columns.add(y.value.id)
+                if from_zip_star:
+                    for y in ast.walk(t):
+                        if isinstance(y, ast.Name) and isinstance(y.ctx, ast.Store):
+                            columns.add(y.id)
+
+        def list_by_construction(e) -> Optional[str]:
+            if isinstance(e, ast.Name) and e.id in starred:
+                return f"the starred target `*{e.id}` (always a list)"
+            if isinstance(e, (ast.List, ast.ListComp)):
+                return "a list display"
+            if isinstance(e, ast.Call) and dotted(e.func) == "list":
+                return "list(...)"
+            return None
+
+        for c in calls_in(fi.node):
+            nm = ctx.res.external_name(fi, c) or ""
+            if nm in ("numpy.array", "numpy.asarray") and c.args and any(k.arg == "dtype" for k in c.keywords) and isinstance(c.args[0], ast.Name):
+                rows = c.args[0].id
+                # how the rows were collected: rows.append(E) / rows = [E for ...]
+                elems = []
+                for x in walk_no_nested(fi.node):
+                    if isinstance(x, ast.Call) and isinstance(x.func, ast.Attribute) and x.func.attr == "append" and isinstance(x.func.value, ast.Name) and x.func.value.id == rows and x.args:
+                        elems.append(x.args[0])
+                    if isinstance(x, ast.Assign) and any(isinstance(t, ast.Name) and t.id == rows for t in x.targets) and isinstance(x.value, ast.ListComp):
+                        elems.append(x.value.elt)
+                for e in elems:
+                    why = list_by_construction(e)
+                    if why:
+                        R.check("C07.m", "records handed to a possibly structured dtype are tuples", False, fi, c,
+                                msg=f"{fi.short}: the rows of `{unparse(c)[:50]}` are {why}: with a multi-field structured blobs_dtype numpy does not read a list as one record but "
+                                    f"broadcasts each scalar over all fields, so every particle's blob holds wrong values (tuples are read as records)", key=f"blob-rows-are-lists:{fi.short}")
+            # reshape of a column-major table
+            if isinstance(c.func, ast.Attribute) and c.func.attr == "reshape" and any(isinstance(a, ast.UnaryOp) and isinstance(a.operand, ast.Constant) and a.operand.value == 1 for a in c.args):
+                base = c.func.value
+                txt_names = {y.id for y in ast.walk(base) if isinstance(y, ast.Name)}
+                if txt_names & columns:
+                    R.check("C07.m", "a column-major table becomes rows by a transpose", False, fi, c,
+                            msg=f"{fi.short}: `{unparse(c)[:70]}` reshapes a table built from the columns of `zip(*results)` ({sorted(txt_names & columns)}): reshape re-cuts the flat "
+                                f"buffer instead of transposing it, so with two or more blobs per particle each stored row mixes the values of different particles", key=f"reshape-for-transpose:{fi.short}")
+    R.check("C07.m", "result assembly scanned for numpy record / layout contracts", True, None, None, key="blob-assembly-scan")
+    R.floor("C07.m", "functions that call the user's likelihood", n, 1)
+
+
 def rule_g(ctx: Context, R: Reporter):
     """Likelihood values travel unmodified from the user's callable to storage."""
     n_fn = 0
@@ -1069,6 +1144,7 @@ def run(ctx: Context, R: Reporter):
     R.guard(rule_e, ctx, R)
     R.guard(rule_f, ctx, R)
     R.guard(rule_g, ctx, R)
+    R.guard(rule_m, ctx, R)
     R.guard(rule_h, ctx, R)
 
 
@@ -1102,6 +1178,9 @@ def variants():
         Variant("f-writeback-omits-blobs", "bad", edit(mu, "Mutator.run", _merge_writebacks(("x", "u", "logl"))), ["C07.f"], quick=True),
         Variant("f-writeback-omits-x", "bad", edit(mu, "Mutator.run", _merge_writebacks(("u", "logl", "blobs"))), ["C07.f"]),
         Variant("g-nan-to-num-kernel", "bad", insert_before(mc, "BaseMCMCRunner._evaluate_likelihood", "self.n_calls += self.n_walkers", "logl_prime = np.nan_to_num(logl_prime)"), ["C07.g"], quick=True),
+        Variant("m-blob-rows-star-unpacked", "bad", replace_stmt(core, "SamplerCore._log_like", "blob = [item[1:] for item in results]", "blob = []\nfor (value0, *extra) in results:\n    blob.append(extra)"), ["C07.m"], quick=True),
+        Variant("m-blob-columns-reshaped", "bad", replace_stmt(core, "SamplerCore._log_like", "blob = np.array(blob, dtype=dt)", "logl_col, *blob_cols = zip(*results)\nblob = np.array(blob_cols, dtype=dt).reshape(len(results), -1)"), ["C07.m"]),
+        Variant("m-benign-blob-rows-as-tuples", "benign", replace_stmt(core, "SamplerCore._log_like", "blob = [item[1:] for item in results]", "blob = [tuple(item[1:]) for item in results]")),
         Variant("g-logl-array-in-coordinate-precision", "bad", replace_stmt(core, "SamplerCore._log_like", "logl = np.array([float(value) for value in results])", "logl = np.empty(len(results), dtype=np.result_type(np.asarray(x).dtype, np.float32))\nfor i, value in enumerate(results):\n    logl[i] = float(value)"), ["C07.g"], quick=True),
         Variant("g-benign-logl-array-preallocated-double", "benign", replace_stmt(core, "SamplerCore._log_like", "logl = np.array([float(value) for value in results])", "logl = np.empty(len(results), dtype=float)\nfor i, value in enumerate(results):\n    logl[i] = float(value)")),
         Variant("g-nan-to-num-wrapper", "bad", replace_expr(core, "SamplerCore._log_like", "(self.config.log_likelihood(x), None)", "(np.nan_to_num(self.config.log_likelihood(x), nan=-np.inf), None)"), ["C07.g"]),
